@@ -1229,6 +1229,14 @@ class HistogramBase(abc.ABC):
             raise TypeError("Histograms may be multiplied only by a constant.")
         return self
 
+    @staticmethod
+    def _check_missed(values: ArrayLike) -> None:
+        """The weight recorded outside the bins is content too: not negative without free arithmetics."""
+        if not config.free_arithmetics:
+            with np.errstate(invalid="ignore"):
+                if np.any(np.asarray(values, dtype=float) < 0):
+                    raise ValueError("Cannot have negative frequencies.")
+
     def _refuse_scaling_of_negative_contents(self) -> None:
         """Negative contents exist only under free arithmetics: refused before anything is touched."""
         if not config.free_arithmetics and np.any(self._frequencies < 0):
